@@ -323,6 +323,47 @@ def fam_long(case):
                     rqa.max_length(hv))}
 
 
+EMB_SERIES = [0.0, 1.0, 3.0, 1.0, 0.0, 2.0, 3.0, 1.0, 0.5]
+
+
+def fam_embedded_mv(case):
+    """Missing values under delay embedding: a state vector is missing when
+    ANY of its components is (not only its first sample); lines through or
+    next to such states are excluded, in both storage modes."""
+    nanpos, dim, tau, sparse = case
+    x = np.array(EMB_SERIES, dtype=float)
+    x[list(nanpos)] = np.nan
+    n = len(x) - (dim - 1) * tau
+    states = np.stack([x[k * tau:k * tau + n] for k in range(dim)], axis=1)
+    mv = np.isnan(states).any(axis=1).tolist()
+    thr = 1.25
+    D = np.abs(states[:, None, :] - states[None, :, :]).max(axis=2)
+    R = (D < thr).astype(int)
+    R[np.array(mv), :] = 0
+    R[:, np.array(mv)] = 0
+    kw = dict(metric="supremum", threshold=thr, dim=dim, tau=tau,
+              missing_values=True)
+    if sparse:
+        kw["sparse_rqa"] = True
+    viol = []
+    try:
+        rp = _mk(x, **kw)
+    except Exception as ex:   # noqa
+        return {"viol": [V("RecurrencePlot.__init__:raises:mv+embedding",
+                           repr(ex), repr(ex), "a plot")], "evals": 1}
+    tag = ("seq+" if sparse else "") + "mv+embedding"
+    if not sparse:
+        Rl = np.asarray(rp.recurrence_matrix())
+        if Rl.shape != R.shape or not np.array_equal(Rl, R):
+            viol.append(V("RecurrencePlot.recurrence_matrix:value:" + tag,
+                          "NaN at %s, dim %d tau %d" % (list(nanpos), dim,
+                                                        tau), Rl, R))
+    hd, hv, hw = _hist_check(rp, R.tolist(), mv, tag, viol, white=False)
+    ev = 3 + _check_measures(rp, hd, hv, hw, n, tag, viol, white=False)
+    return {"viol": viol, "evals": ev, "trivial": not any(mv),
+            "sig": (tuple(nanpos), dim, tau, sparse, tuple(hd), tuple(hv))}
+
+
 OBJECT_DRIVERS = ("RecurrencePlot", "RecurrenceNetwork",
                   "JointRecurrencePlot", "JointRecurrenceNetwork")
 
@@ -368,7 +409,8 @@ def fam_objects(case):
 
 
 FAMILIES = {"crafted": fam_crafted, "assigned": fam_assigned, "f32": fam_f32,
-            "long": fam_long, "objects": fam_objects}
+            "long": fam_long, "objects": fam_objects,
+            "embedded_mv": fam_embedded_mv}
 
 
 def run(ctx):
@@ -406,6 +448,14 @@ def run(ctx):
                        for k in range(len(drv.mutators(model)))]
             except Exception:   # noqa
                 pass
+    L_ = len(EMB_SERIES)
+    ec = [[list(pos), dim, tau, sp_]
+          for pos in [(i,) for i in range(L_)] + [(1, 5), (0, L_ - 1),
+                                                  (3, 4)]
+          for (dim, tau) in ((2, 1), (2, 2), (3, 1))
+          for sp_ in (0, 1)]
+    ctx.explore("embedded_mv", ec, desc="NaN samples under delay embedding, "
+                "both storage modes")
     ctx.explore("objects", oc, chunk=1, desc="plots, recurrence networks, "
                 "joint plots and joint networks (fresh and after each "
                 "mutator): histograms vs run-length count of their own matrix")
